@@ -356,7 +356,13 @@ func Run(tier, replay string) {
 			defer wg.Done()
 			sem <- struct{}{}
 			defer func() { <-sem }()
-			outs[i] = runChild(dir, sc, i)
+			for try := 0; try < 3; try++ {
+				outs[i] = runChild(dir, sc, i+try*10000)
+				// a report whose stacks the detector could not restore cannot be attributed: run again
+				if !onlyUnclassified(outs[i]) {
+					break
+				}
+			}
 		}(i, sc)
 	}
 	wg.Wait()
@@ -446,12 +452,8 @@ func Run(tier, replay string) {
 			}
 		}
 		for e, mm := range byEntry {
-			rd := "locking-printer"
-			if e == "block" || e == "ident" || (e == "func" && sc.Mix != "func+block") || (e == "func" && !numberedStart(sc)) {
-				rd = "lock-free-reader"
-			}
 			rep.Fail(mbt.Failure{
-				Signature: "C13|text|" + rd + "|" + idsLabel(sc),
+				Signature: "C13|text|" + e + "|" + idsLabel(sc),
 				What:      fmt.Sprintf("%s: a concurrent %s print differs from the lone sequential call: %s", sc.Name, e, firstDiff(mm.Want, mm.Got)),
 				Case:      caseOf(map[string]interface{}{"entry": e, "want": mbt.Truncate(mm.Want, 3000), "got": mbt.Truncate(mm.Got, 3000)}),
 			})
@@ -528,6 +530,18 @@ func Run(tier, replay string) {
 	}
 	rep.Exhaustive = false
 	rep.Finish()
+}
+
+func onlyUnclassified(o childOutcome) bool {
+	if len(o.races) == 0 {
+		return false
+	}
+	for _, r := range o.races {
+		if _, ok := classify(r); ok {
+			return false
+		}
+	}
+	return true
 }
 
 func summarise(r raceReport) string {
